@@ -69,6 +69,9 @@ Proof.
   cbn [parse_toks]. unfold final_st_min. reflexivity.
 Qed.
 
+Lemma tok_rfc822z : tokenize (named_format (s2b "RFC822Z")) = toks_rfc822z.
+Proof. vm_compute. reflexivity. Qed.
+
 Definition lo_822 : Z := -31536000.     (* 1969-01-01T00:00:00 local *)
 Definition hi_822 : Z := 3124224000.    (* 2069-01-01T00:00:00 local *)
 Definition in_range_822 (t off : Z) : bool := (lo_822 <=? t + off) && (t + off <? hi_822).
@@ -93,6 +96,38 @@ Proof.
       pose proof (year_start_mono 2069 (c_year c) ltac:(lia)). lia.
 Qed.
 
+Lemma finish_final_min c : cok c ->
+  finish (final_st_min c) =
+  Some (mkparsed (wall_secs (c_year c) (c_month c) (c_day c) (c_hour c) (c_min c) 0) 0 (PZoff (c_off c))).
+Proof.
+  intros [? ? ? ? ? ? ? ? [Hm ?]]. pose proof (days_in_month_le (c_year c) (c_month c)).
+  unfold finish, final_st_min.
+  cbn [p_year p_month p_day p_hour p_min p_sec p_nsec p_z p_zoff p_zname].
+  replace (c_month c <? 0) with false by (symmetry; apply Z.ltb_ge; lia).
+  replace (c_day c <? 0) with false by (symmetry; apply Z.ltb_ge; lia).
+  replace (c_day c <? 1) with false by (symmetry; apply Z.ltb_ge; lia).
+  replace (days_in_month (c_year c) (c_month c) <? c_day c) with false by (symmetry; apply Z.ltb_ge; lia).
+  cbn [orb].
+  replace (c_off c =? -1) with false; [reflexivity|].
+  symmetry. apply Z.eqb_neq. intros E. rewrite E in Hm. discriminate.
+Qed.
+
+Lemma wall_no_secs y m d h mi s : wall_secs y m d h mi 0 = wall_secs y m d h mi s - s.
+Proof. unfold wall_secs. lia. Qed.
+
+Lemma mod60_local t off : off mod 60 = 0 -> (t + off) mod 86400 mod 60 = t mod 60.
+Proof.
+  intros Ho.
+  pose proof (Z.div_mod (t + off) 86400 ltac:(lia)).
+  replace ((t + off) mod 86400) with (t + off + (- (1440 * ((t + off) / 86400))) * 60) by lia.
+  rewrite Z.mod_add by lia.
+  pose proof (Z.div_mod off 60 ltac:(lia)).
+  replace (t + off) with (t + (off / 60) * 60) by lia. apply Z.mod_add. lia.
+Qed.
+
+Lemma cut_minute t off s : s = t mod 60 -> t + off - s - off = t - t mod 60.
+Proof. intros ->. lia. Qed.
+
 (* time(timeformat(t)) = t cut to the minute, for local years 1969..2068 *)
 Theorem rt_rfc822z : forall t off abbr,
   in_range_822 t off = true -> rt_offset off = true ->
@@ -104,33 +139,14 @@ Proof.
   pose proof (civil_of_ok t off abbr Hr' Ho) as Hc.
   pose proof (civil_of_wall t 0 off abbr) as Hw. cbv zeta in Hw.
   destruct (civil_of_fields t 0 off abbr) as (_ & _ & _ & Es & _ & _ & Eo & _). cbv zeta in Es, Eo.
-  set (c := civil_of t 0 off abbr) in *.
+  assert (Ho60 : off mod 60 = 0).
+  { unfold rt_offset in Ho. apply andb_true_iff in Ho as [Ho _]. apply andb_true_iff in Ho as [Ho _]. apply Z.eqb_eq in Ho. exact Ho. }
+  rewrite (mod60_local t off Ho60) in Es.
+  generalize dependent (civil_of t 0 off abbr). intros c Hy Hc Hw Es Eo.
   unfold parse_layout, format_layout.
-  change (tokenize (named_format (s2b "RFC822Z"))) with toks_rfc822z.
-  rewrite (rt_toks_rfc822z c Hc Hy).
-  pose proof Hc as [? ? ? ? ? ? ? ? [Hm ?]].
-  pose proof (days_in_month_le (c_year c) (c_month c)).
-  unfold finish, final_st_min. cbn [p_year p_month p_day p_hour p_min p_sec p_nsec p_z p_zoff p_zname].
-  replace (c_month c <? 0) with false by (symmetry; apply Z.ltb_ge; lia).
-  replace (c_day c <? 0) with false by (symmetry; apply Z.ltb_ge; lia).
-  replace (c_day c <? 1) with false by (symmetry; apply Z.ltb_ge; lia).
-  replace (days_in_month (c_year c) (c_month c) <? c_day c) with false by (symmetry; apply Z.ltb_ge; lia).
-  cbn [orb]. replace (c_off c =? -1) with false
-    by (symmetry; apply Z.eqb_neq; intros E; rewrite E in Hm; discriminate).
-  cbn [negb]. eexists. split; [reflexivity|]. intros names lo fo. unfold resolve. cbn [r_zone r_wall].
-  rewrite Eo. f_equal.
-  (* the wall clock without its seconds *)
-  assert (Hwall : wall_secs (c_year c) (c_month c) (c_day c) (c_hour c) (c_min c) 0 = t + off - c_sec c).
-  { unfold wall_secs in *. lia. }
-  rewrite Hwall, Es.
-  unfold rt_offset in Ho. apply andb_true_iff in Ho as [Ho _]. apply andb_true_iff in Ho as [Ho _]. apply Z.eqb_eq in Ho.
-  assert (E60 : (t + off) mod 86400 mod 60 = t mod 60).
-  { pose proof (Z.div_mod (t + off) 86400 ltac:(lia)).
-    replace ((t + off) mod 86400) with (t + off + (- (1440 * ((t + off) / 86400))) * 60) by lia.
-    rewrite Z.mod_add by lia.
-    pose proof (Z.div_mod off 60 ltac:(lia)).
-    replace (t + off) with (t + (off / 60) * 60) by lia. apply Z.mod_add. lia. }
-  rewrite E60. lia.
+  rewrite tok_rfc822z, (rt_toks_rfc822z c Hc Hy), (finish_final_min c Hc).
+  eexists. split; [reflexivity|]. intros names lo fo. unfold resolve. cbn [r_zone r_wall].
+  rewrite (wall_no_secs _ _ _ _ _ (c_sec c)), Hw, Eo. f_equal. apply cut_minute. exact Es.
 Qed.
 
 (* on the functions of funcsTime.go *)
